@@ -529,6 +529,34 @@ def run(prog, rep, tier='quick', config='default'):
                     if o2.consts and not o2.params and not [y for y in o2.calls if y.short not in ('deref', 'as_str', 'borrow', 'as_ref')]:
                         changed = True
             if not changed:
+                # ... or calls the helper with a different constant text for one of its parameters than the producer of the live
+                # name does (`name_with_suffix(dir, year, ".tmp")` beside `name_with_suffix(dir, year, "")`): the same template
+                # filled differently is a different name
+                def const_text(f_, a_):
+                    if a_.get('k') == 'const':
+                        return a_.get('v') if re.search(r'^"', a_.get('v', '')) else None
+                    oo = mir.provenance(f_, a_)
+                    vs = {v for (ty_, v, *_r) in oo.consts if 'str' in ty_}
+                    if len(vs) == 1 and not oo.params and not [y for y in oo.calls if y.short not in ('deref', 'as_str', 'borrow', 'as_ref')]:
+                        v = vs.pop()
+                        if v.startswith('"'):
+                            return v
+                        h = prog.fns.get(v)        # a named constant
+                        if h is not None:
+                            for b_ in h.blocks.values():
+                                for st_ in b_['stmts']:
+                                    for o_ in st_['r'].get('ops', []):
+                                        if o_.get('k') == 'const' and str(o_.get('v', '')).startswith('"'):
+                                            return o_['v']
+                    return None
+                pcs = [x for h in [producer] + helpers for x in h.calls if x.callee == c.callee and h.name in group]
+                for pc in pcs:
+                    for ai, a_ in enumerate(c.args):
+                        if ai < len(pc.args):
+                            va, vp = const_text(c.fn, a_), const_text(pc.fn, pc.args[ai])
+                            if va is not None and vp is not None and va != vp:
+                                changed = True
+            if not changed:
                 dup.append(c.fn)
     if not live_t:
         rep.violation('R14e', 'anchor-lost:live-name-template', fn=producer.name, detail='anchor lost: the format template of the live cache file name')
